@@ -1,5 +1,5 @@
 SPECIFICATION Spec
-CONSTANTS Tunings = {"a1"} MaxGroup = 1 PermSet = "some"
+CONSTANTS Tunings = {"a1e4"} MaxGroup = 1 PermSet = "some"
 CONSTANT KindSets <- KindSetsSeq
 CONSTANT Placements <- PlacementsSeq
 CONSTANT SubPatterns <- SubsQuick
